@@ -92,3 +92,37 @@ package federation
 //@   calls fn#1: requires $1 == "" && $2 == conn.local
 //@   calls fn#1: set lerr = $r
 //@   calls Conn.tryLocalThenRemotes$1#1: requires forwardedFor == "" && lerr != nil && errStatus(lerr) == 404
+
+// ------------------------------------------------------------------- C20
+// splitListRequest: fan-out to several clusters happens only for a pure
+// list-by-UUID query (every filter is "uuid =" / "uuid in", count none, no
+// limit/offset/order, not more UUIDs than one page); otherwise the request is
+// rejected before any backend is called, or passed to the local backend alone
+// in the documented pass-through cases.  The set of requested UUIDs is the
+// intersection of the per-filter sets: the running set is (re)placed only by
+// the first uuid filter.
+//@ func Conn.splitListRequest property C20 safety -bounds
+//@   ghost seen bool = false
+//@   at assign matchAllFilters#1: assert !seen
+//@   at assign matchAllFilters#1: set seen = true
+//@   loop 1: invariant seen ==> matchAllFilters != nil
+//@   calls fn#1: requires (opts.BypassFederation || opts.ForwardedFor != "") && $1 == conn.cluster.ClusterID && $2 == conn.local
+//@   calls fn#2: requires matchAllFilters == nil && $1 == conn.cluster.ClusterID && $2 == conn.local
+//@   calls fn#3: requires len(todoByRemote) == 1 && has(todoByRemote, conn.cluster.ClusterID) && $1 == conn.cluster.ClusterID && $2 == conn.local
+//@   calls Conn.splitListRequest$1#1: requires !cannotSplit && opts.Count == "none" && opts.Limit < 0 && opts.Offset == 0 && len(opts.Order) == 0 && nUUIDs <= conn.cluster.API.MaxItemsPerResponse
+
+// Per-cluster worker: the backend is the local one for the local cluster id,
+// the configured remote otherwise (unknown cluster => error); every round
+// either ends the worker or removes at least one requested UUID from the
+// to-do set (no looping on a backend that makes no progress); a backend error
+// is reported; nil is reported only from the normal exit.
+//@ func Conn.splitListRequest$1 property C20 safety -bounds
+//@   ghost len0 int = 0
+//@   ghost ferr error = nil
+//@   calls fn#1: requires $1 == clusterID && (clusterID == conn.cluster.ClusterID ==> $2 == conn.local) && (clusterID != conn.cluster.ClusterID ==> $2 == conn.remotes[clusterID] && $2 != nil)
+//@   calls fn#1: set len0 = len(todo)
+//@   calls fn#1: set ferr = $r1
+//@   loop 3: invariant todo == old(todo) && len(todo) <= len0 && (progress ==> len(todo) < len0) && ferr == nil
+//@   at loop 2 back: assert len(todo) < len0
+//@   at send#2: assert ferr != nil
+//@   at send#4: assert ferr == nil
